@@ -19,6 +19,10 @@ use tokio::{
 use tower::util::BoxCloneService;
 use tracing::{debug, info, instrument, trace};
 
+/// How long shutdown waits, after swapping the socket out, for connections that are still alive
+/// to let go of it.
+const SOCKET_RELEASE_TIMEOUT: std::time::Duration = std::time::Duration::from_millis(50);
+
 #[derive(Debug)]
 pub enum ConnectionManagerRequest {
     ConnectRequest(Address, Option<PeerId>, oneshot::Sender<Result<PeerId>>),
@@ -206,6 +210,11 @@ impl ConnectionManager {
         self.endpoint.rebind(socket).unwrap();
         let socket = std::net::UdpSocket::bind((std::net::Ipv4Addr::LOCALHOST, 0)).unwrap();
         self.endpoint.rebind(socket).unwrap();
+        // Connections that did not finish draining in time still hold the old socket until their
+        // driver tasks have seen the rebind: give them the chance to before reporting completion.
+        self.endpoint
+            .wait_initial_socket_released(SOCKET_RELEASE_TIMEOUT)
+            .await;
     }
 
     /// This method adds an established connection with a peer to the map of active peers.
